@@ -10,9 +10,11 @@ import (
 	"runtime"
 	"sort"
 	"testing"
+	"time"
 
 	_ "github.com/segmentio/kafka-go" // registers every API sub-package the library uses
 	"github.com/segmentio/kafka-go/protocol"
+	"github.com/segmentio/kafka-go/protocol/produce"
 
 	"verif/engine/refschema"
 	"verif/engine/seqx"
@@ -246,6 +248,7 @@ func TestCheck(t *testing.T) {
 		}
 	}
 	legacy(t, s)
+	largeFrames(s, thorough)
 	s.Finish()
 }
 
@@ -285,4 +288,73 @@ func hasCustomGo(t reflect.Type) bool {
 		}
 	}
 	return false
+}
+
+// largeFrames: produce requests larger than one 64 KiB page of the encoder's buffer, with the first record's value
+// sized so that the second partition's batch header (v7) or the second message's header (v2) lands on every byte
+// position around the page boundary. The frame must carry a truthful size prefix and decode back to the records.
+func largeFrames(s *seqx.Suite, thorough bool) {
+	s.Begin("large-produce-frames-around-the-page-boundary")
+	step := 1
+	if !thorough {
+		step = 2
+	}
+	mk := func(vals ...[]byte) protocol.RecordSet {
+		var rs []protocol.Record
+		for i, v := range vals {
+			rs = append(rs, protocol.Record{Offset: int64(i), Time: time.UnixMilli(1700000000000 + int64(i)), Key: protocol.NewBytes([]byte{byte('a' + i)}), Value: protocol.NewBytes(v)})
+		}
+		return protocol.RecordSet{Version: 0, Records: protocol.NewRecordReader(rs...)}
+	}
+	for _, ver := range []int16{2, 7} {
+		for sz := 65536 - 200; sz <= 65536+20; sz += step {
+			ver, sz := ver, sz
+			id := fmt.Sprintf("produce v%d first value %d bytes", ver, sz)
+			s.Case(id, id, func() (string, *seqx.Viol) {
+				big := bytes.Repeat([]byte{7}, sz)
+				format := int8(2)
+				if ver < 3 {
+					format = 1
+				}
+				p0, p1 := mk(big, []byte("tail")), mk([]byte("x"), []byte("yy"))
+				p0.Version, p1.Version = format, format
+				req := &produce.Request{Acks: -1, Timeout: 1000, Topics: []produce.RequestTopic{{Topic: "t", Partitions: []produce.RequestPartition{{Partition: 0, RecordSet: p0}, {Partition: 1, RecordSet: p1}}}}}
+				frame, err := encodeReq(ver, 5, "cid", req)
+				if err != nil {
+					return "encode-error", &seqx.Viol{Sig: "large-frame:encode", Msg: err.Error()}
+				}
+				if int(int32(uint32(frame[0])<<24|uint32(frame[1])<<16|uint32(frame[2])<<8|uint32(frame[3]))) != len(frame)-4 {
+					return "size", &seqx.Viol{Sig: "large-frame:size-prefix", Msg: id + ": size prefix does not equal the bytes that follow"}
+				}
+				_, _, _, back, derr := protocol.ReadRequest(bytes.NewReader(frame))
+				if derr != nil {
+					return "decode-error", &seqx.Viol{Sig: "large-frame:not-decodable", Msg: fmt.Sprintf("%s: the library's own frame (%d bytes) does not decode: %v", id, len(frame), derr)}
+				}
+				want := [][][]byte{{big, []byte("tail")}, {[]byte("x"), []byte("yy")}}
+				pr := back.(*produce.Request)
+				if len(pr.Topics) != 1 || len(pr.Topics[0].Partitions) != 2 {
+					return "shape", &seqx.Viol{Sig: "large-frame:shape", Msg: id + ": topics/partitions lost"}
+				}
+				for pi, part := range pr.Topics[0].Partitions {
+					for ri := 0; ; ri++ {
+						rec, err := part.RecordSet.Records.ReadRecord()
+						if err != nil {
+							if ri != len(want[pi]) {
+								return "records", &seqx.Viol{Sig: "large-frame:records-lost", Msg: fmt.Sprintf("%s: partition %d decodes to %d records, %d were written (%v)", id, pi, ri, len(want[pi]), err)}
+							}
+							break
+						}
+						if ri >= len(want[pi]) {
+							return "records", &seqx.Viol{Sig: "large-frame:records-extra", Msg: fmt.Sprintf("%s: partition %d decodes to more records than were written", id, pi)}
+						}
+						val, _ := protocol.ReadAll(rec.Value)
+						if !bytes.Equal(val, want[pi][ri]) || rec.Time.UnixMilli() != 1700000000000+int64(ri) {
+							return "records", &seqx.Viol{Sig: "large-frame:record-differs", Msg: fmt.Sprintf("%s: partition %d record %d decodes to %d value bytes at %d ms (written: %d bytes at %d ms)", id, pi, ri, len(val), rec.Time.UnixMilli(), len(want[pi][ri]), 1700000000000+int64(ri))}
+						}
+					}
+				}
+				return fmt.Sprintf("v%d", ver), nil
+			})
+		}
+	}
 }
